@@ -313,7 +313,7 @@ func (r *c20Run) finish() {
 		// a valid call the model does not cover was executed on the real code and judged by (S): no correspondence case
 		r.ctx.Tag("outside-model:" + r.h.outside)
 	} else {
-		r.ctx.Add("heap.run", impl, r.wires...)
+		r.ctx.Add(map[bool]string{false: "heap.run", true: "heapx.run"}[r.h.ext], impl, r.wires...)
 	}
 	r.ctx.Eval(strings.Join(r.wires, " "), len(r.wires) >= 4 && r.nMut >= 1)
 }
@@ -592,5 +592,6 @@ func runC20(ctx *Ctx) {
 	c20derived(ctx)
 	c20conc(ctx)
 	c20d1(ctx)
+	c20d2(ctx)
 	c20race(ctx) // quick: 2 short runs when the -race build is cached; thorough: 15 long runs
 }
